@@ -709,7 +709,20 @@ class Engine:
             raise Unsupported('truthiness of opaque str')
         if isinstance(v, SOpaque) and v.kind == 'unspecified-result':
             raise Unsupported('truth value of %s, whose result no contract specifies' % v.ident)
-        return True
+        from . import aio as _aio
+        M = self.models
+        if isinstance(v, _aio.QueueView):                 # `if self._queue:` on the deque of a queue
+            ss = v.q.attrs['_sym']
+            return mk_bool(ss['t'] > ss['h'])
+        if isinstance(v, M.SymSeq):
+            return mk_bool(v.hi > v.lo)
+        if isinstance(v, M.SymList):
+            return mk_bool(I(v.n) > 0)
+        if isinstance(v, (PyFunc, BoundMethod, PyClass, Builtin, Module, SOpaque, GenObj, M.ExternModule, Extern, M.Partial,
+                          M.OpaqueMethod, M.Coroutine)) or type(v).__name__ in ('Awaitable', 'Property', 'BlackHole', 'CtxManagerFromGen'):
+            return True
+        # anything else is a modelling object whose truth value was never thought about: never guess
+        raise Unsupported('truth value of %r is not modelled' % (v,))
 
     def decide(self, v, site=''):
         t = self.truth(v)
@@ -1920,14 +1933,28 @@ class Engine:
                 return
             self.exec_block(node.orelse, env)
             return
+        if isinstance(it, range) and it.step == 1:
+            # a counted loop that has a loop contract is cut like a symbolic range (whatever its length)
+            qual0, k0 = self.loop_key(node, env)
+            if self.spec_for_loop(qual0, k0)[0] is not None:
+                it = M.SymRange(it.start, it.stop)
         if isinstance(it, M.SymIter):
             qual, k = self.loop_key(node, env)
-            spec = self.loop_specs.get((qual, k))
+            spec, gkey = self.spec_for_loop(qual, k)
             if spec is None:
                 raise Unsupported('for over symbolic collection without loop contract (%s #%s)' % (qual, k))
-            return it.cut(self, node, env, spec, qual, k)
-        items = it._pyvc_iter(self) if hasattr(it, '_pyvc_iter') else M.concrete_iter(self, it)
+            r = it.cut(self, node, env, spec, qual, k)
+            return r
+        if isinstance(it, range):
+            items = it           # lazily: a long counted loop that leaves early (return / break) is fine without a contract
+        else:
+            items = it._pyvc_iter(self) if hasattr(it, '_pyvc_iter') else M.concrete_iter(self, it)
+        n_iter = 0
         for v in items:
+            n_iter += 1
+            if isinstance(it, range) and n_iter > max(self.unroll_limit, 64):
+                raise Unsupported('counted loop over %d elements has no loop contract and does not leave within %d iterations'
+                                  % (len(it), n_iter - 1))
             self.assign(node.target, v, env)
             try:
                 self.exec_block(node.body, env)
